@@ -70,7 +70,7 @@ class TaskResult:
         self.assumption_count = 0
 
 
-def run_task(task, repo, use_cvc5=True):
+def run_task(task, repo, use_cvc5=True, stop_on_refuted=False):
     res = TaskResult(task)
     t0 = time.time()
     ctx = Ctx()
@@ -144,6 +144,9 @@ def run_task(task, repo, use_cvc5=True):
     n_ref = n_unk = 0
     for ob in ctx.obligs:
         ob.task = task.name
+        if stop_on_refuted and n_ref:        # canary runs only ask 'is anything refuted'
+            ob.status, ob.solver, ob.ms, ob.reason = "unknown", "", 0.0, "not attempted (canary run: already refuted)"
+            continue
         if n_ref or n_unk >= 3:
             discharge(ob, use_cvc5=False, z3_ms=2500, fast=True)
         else:
